@@ -1,5 +1,6 @@
 import HdVerif.Model.Json
 import HdVerif.Model.SegEncode
+import HdVerif.Model.SegFrames
 open Lean HdVerif HdVerif.Drv HdVerif.Bits HdVerif.Gen HdVerif.SegEncode
 
 def jNatList (v : Json) : Except String (List Nat) := do
@@ -66,8 +67,10 @@ def getPlane (j : Json) : Except String Plane := do
   | "float", true => Plane.fltStack <$> jList jRatList px
   | _, _ => throw "bad plane kind"
 
-def handlers : List (String × Handler) := [
-  ("build", fun j => do
+/-- `build` (and `buildTiled`: `tiled` = the matrix size; the mask is then cut into tiles by the model) with everything the
+    harness compares: NumberOfFrames, BitsAllocated, SegmentsOverlap, the frames in loop order with their (segment, plane)
+    key and DimensionIndexValues, PixelData in the implementation's frame order -/
+def buildHandler (tiled : Bool) : Handler := fun j => do
     let codec ← getCodec j
     let rows ← getNat j "rows"
     let cols ← getNat j "cols"
@@ -75,9 +78,16 @@ def handlers : List (String × Handler) := [
     let segs ← getNatList j "segs"
     let mfv ← getNat j "mfv"
     let omt ← getBool j "omit"
-    let order ← getNatList j "order"
-    let m ← getMask j
+    let m0 ← getMask j
+    let R ← (if tiled then getNat j "R" else pure 0)
+    let C ← (if tiled then getNat j "C" else pure 0)
+    let m := if tiled then tileMask R C rows cols m0 else m0
+    let order ← (if tiled then pure (List.range m.numPlanes) else getNatList j "order")
+    -- the shape checks of `buildTiled` (one plane of R * C pixels)
+    let pre : Except ErrKind Unit :=
+      if tiled ∧ (m0.numPlanes ≠ 1 ∨ m0.planeSizes.any (· != R * C)) then .error .value else .ok ()
     let r : Except ErrKind Json := do
+      pre
       let o ← build codec rows cols t segs mfv omt order m
       -- the frames themselves (re-run of the loop; `build` keeps only what the object stores)
       let (arr, ov) ← castMask segs t m
@@ -108,8 +118,29 @@ def handlers : List (String × Handler) := [
         ("bits", (o.bits : Nat)),
         ("overlap", overlapStr ov),
         ("frames", Json.arr (frames.map fun f => Json.arr #[segToJson f.seg, (f.plane : Nat), natsToJson f.px]).toArray),
+        ("dims", Json.arr ((frameDims (planOrder arr mfv omt order).2 (frames.map fun f => (f.seg, f.plane))).map natsToJson).toArray),
         ("pd", pdJson)])
-    pure (exceptToJson id r)),
+    pure (exceptToJson id r)
+
+def handlers : List (String × Handler) := [
+  ("build", buildHandler false),
+  ("buildTiled", buildHandler true),
+  ("readDim", fun j => do
+    let codec ← getCodec j
+    let rows ← getNat j "rows"
+    let cols ← getNat j "cols"
+    let t ← getType j
+    let segs ← getNatList j "segs"
+    let mfv ← getNat j "mfv"
+    let omt ← getBool j "omit"
+    let order ← getNatList j "order"
+    let m ← getMask j
+    let ks ← getNatList j "request"
+    let r : Except ErrKind (List (List (List Nat))) := do
+      let o ← build codec rows cols t segs mfv omt order m
+      let (arr, _) ← castMask segs t m
+      readByDimIndex codec o (frameDims (planOrder arr mfv omt order).2 o.keys) ks
+    pure (exceptToJson nat3ToJson r)),
   ("roundtrip", fun j => do
     let codec ← getCodec j
     let allow ← getBool j "allow_missing"
